@@ -462,6 +462,9 @@ def section_strategy():
     })
 
 
+SIG_NOTE_MIX = "note-segment-mixes-alignments"
+
+
 class C04(Check):
     prop = "C04"
     level = "exploration"
@@ -528,8 +531,14 @@ class C04(Check):
         script = case["script"] if kind == "static" else None
         return secs, script
 
+    @staticmethod
+    def _mixed_note_alignments(secs):
+        return {4, 8} <= {s["align"] for s in secs if s["flags"] == "note"}
+
     def excluded_by_construction(self, case):
         secs, script = self.plan(case)
+        if self._mixed_note_alignments(secs) and case["kind"] != "reloc":
+            return SIG_NOTE_MIX
         if not script:
             return None
         if not case["gc"]:
@@ -748,6 +757,11 @@ class C04(Check):
                     pre = ("script-nogc/" if not (case["gc"]) else "script/") if script else ""
                     if b.sig == "PT_TLS-vaddr-misaligned":
                         pre = ""  # same root cause with or without a script (known finding)
+                    if b.sig == "note-malformed" and self._mixed_note_alignments(secs):
+                        # one PT_NOTE (p_align 8) over note sections of alignment 4 and 8: the 4-aligned notes cannot
+                        # be parsed with the segment's alignment (GNU ld emits one PT_NOTE per alignment)
+                        raise Violation(SIG_NOTE_MIX, f"wild ({kind}{', -T script' if script else ''}): {b.msg}",
+                                        {"args": self.link_args(case, who, secs, script, objs, helper, out)})
                     raise Violation(pre + b.sig, f"wild ({kind}{', -T script' if script else ''}): {b.msg}", {"args": self.link_args(case, who, secs, script, objs, helper, out)})
                 ref_bad[who] = b
                 verdicts[who] = None
